@@ -348,3 +348,66 @@ def validate_io_records(pid, name, records_path, timeout=3600):
     total = sum(o["records"] for o in outs)
     return {"records": total, "accepted": total - len(rejected), "rejected": rejected,
             "tlc_states": sum(o["distinct"] for o in outs), "groups": [o["group"] for o in outs]}
+
+
+def validate_derived_records(pid, name, records_path, timeout=3600):
+    """TLC validation (DerivedTrace.tla) of records of the constructions on large graphs; the remap
+    records among them go to SearchTrace.tla."""
+    import re
+    d = vf.fresh_dir(os.path.join(vf.RUN, pid, name + "-dvalidate"))
+    groups, remaps = {}, []
+    with open(records_path) as f:
+        for line in f:
+            r = json.loads(line)
+            if r["k"] == "remap":
+                remaps.append(line)
+            else:
+                groups.setdefault(r.get("kind", "labeled") if r["k"] == "conv_edgelist" else "labeled", []).append(line)
+    jobs = []
+    for kind, lines in groups.items():
+        gp = os.path.join(d, "conv-%s.ndjson" % kind)
+        with open(gp, "w") as f:
+            f.writelines(lines)
+        jobs.append((kind, gp, lines))
+
+    def one(job):
+        kind, gp, lines = job
+        cd = gp + ".d"
+        os.makedirs(cd, exist_ok=True)
+        consts = Cases("v", kind, "reverse", 1, emit=False).constants()
+        cfg = vf.write_cfg(os.path.join(cd, "DerivedTrace.cfg"), consts, init="TInit", nxt="TNext", invariants=["BigDerivedOK"])
+        env = _env()
+        env["RECORDS"] = gp
+        r = subprocess.run(vf.tlc_cmd("DerivedTrace.tla", cfg, os.path.join(cd, "md"), workers=4, heap="6g", extra=["-continue"],
+                                      jvm=["-Xss64m"]),
+                           cwd=vf.SPEC, stdout=subprocess.PIPE, stderr=subprocess.STDOUT, timeout=timeout, env=env)
+        text = r.stdout.decode(errors="replace")
+        with open(os.path.join(cd, "tlc.log"), "w") as f:
+            f.write(text)
+        shutil.rmtree(os.path.join(cd, "md"), ignore_errors=True)
+        bad = sorted({int(m.group(1)) for m in re.finditer(r"Invariant BigDerivedOK is violated.*?idx = (\d+)", text, re.S)})
+        p = vf.parse_tlc_output(text)
+        fatal = None
+        if not bad and not p["ok"]:
+            fatal = (p["error"] or "TLC did not finish") + " (%s)" % os.path.join(cd, "tlc.log")
+        return {"kind": kind, "records": len(lines), "bad": bad, "fatal": fatal, "lines": lines, "distinct": p["distinct"]}
+
+    with concurrent.futures.ThreadPoolExecutor(max_workers=4) as ex:
+        outs = list(ex.map(one, jobs))
+    rejected = []
+    for o in outs:
+        if o["fatal"]:
+            raise vf.Infra("validation of the construction records failed to run: " + o["fatal"])
+        for b in o["bad"]:
+            rejected.append({"index": b, "record": json.loads(o["lines"][b - 1])})
+    total = sum(o["records"] for o in outs)
+    states = sum(o["distinct"] for o in outs)
+    if remaps:
+        rp = os.path.join(d, "remaps.ndjson")
+        with open(rp, "w") as f:
+            f.writelines(remaps)
+        v = validate_records(pid, name + "-remaps", rp)
+        total += v["records"]
+        states += v["tlc_states"]
+        rejected += v["rejected"]
+    return {"records": total, "accepted": total - len(rejected), "rejected": rejected, "tlc_states": states}
